@@ -60,7 +60,7 @@ def strategy():
                                   "direction": st.sampled_from(["publish", "call", "call-error"]), "args": vals, "kwargs": kws,
                                   "ser": st.sampled_from(["json", "cbor", "msgpack"]), "xor": st.integers(1, 255), "seed": st.integers(0, 1 << 20),
                                   "empty": st.sampled_from([False, False, False, True]),
-                                  "progress": st.booleans(), "prefix_reg": st.sampled_from([False, False, True]), "caller_defines": st.booleans()})     # calls ask for progressive results: encrypted progressive chunks reach on_progress exactly or not at all    # a request without any arguments (the result still carries the secret)
+                                  "progress": st.booleans(), "prefix_reg": st.sampled_from([False, False, True]), "caller_defines": st.booleans(), "handlers": st.sampled_from([1, 1, 2, 3])})     # calls ask for progressive results: encrypted progressive chunks reach on_progress exactly or not at all    # a request without any arguments (the result still carries the secret)
 
 
 def keyrings(layout):
@@ -191,16 +191,20 @@ def check_flow(c, n_xors=1):
         can_decrypt = layout in ("default", "prefix", "halves", "rekey")
         if c["direction"] == "publish":
             seen = []
-            tr = r.track(r.call(lambda: r.session.subscribe(lambda *a, **k: seen.append((a, k)), "com.myapp.topic1")))
-            r.feed(M.Subscribed(r.t.sent[-1].request, 801))
-            tr2 = r.track(r.call(lambda: r.session.subscribe(lambda *a, **k: seen.append(("OTHER", a, k)), "com.myapp.topic2")))
-            r.feed(M.Subscribed(r.t.sent[-1].request, 802))
+            # one or several handlers attached to the same subscription (the router hands out one id per topic): each of them is an application handler
+            nh = c.get("handlers") or 1
+            for _ in range(nh):
+                tr = r.track(r.call(lambda: r.session.subscribe(lambda *a, **k: seen.append((a, k)), "com.myapp.topic1")))
+                r.feed(M.Subscribed(r.t.sent[-1].request, 801))
+            for _ in range(nh):
+                tr2 = r.track(r.call(lambda: r.session.subscribe(lambda *a, **k: seen.append(("OTHER", a, k)), "com.myapp.topic2")))
+                r.feed(M.Subscribed(r.t.sent[-1].request, 802))
             old = None
             if layout == "rekey":
                 o.call(lambda: o.session.publish("com.myapp.topic1", "warm-up"))
                 old = o.t.sent[-1]
                 r.feed(M.Event(801, 4999, payload=old.payload, enc_algo=old.enc_algo, enc_key=old.enc_key, enc_serializer=old.enc_serializer))
-                if len(seen) != 1:
+                if len(seen) != nh:
                     raise Violation("C20|event|payload-not-recovered", "warm-up event before the key change: %r" % (brief(seen),), c)
                 del seen[:]
                 p.ko.set_key("com.myapp.", p.rekey["make"]())
@@ -223,8 +227,8 @@ def check_flow(c, n_xors=1):
                 return seen[n0:]
             got = deliver(pub.payload)
             if can_decrypt:
-                if len(got) != 1 or norm(list(got[0][0])) != norm(args) or norm(got[0][1]) != norm(kwargs):
-                    raise Violation("C20|event|payload-not-recovered", "handler saw %r, published args=%r kwargs=%r" % (brief(got), brief(args), brief(kwargs)), c)
+                if len(got) != nh or any(norm(list(g[0])) != norm(args) or norm(g[1]) != norm(kwargs) for g in got):
+                    raise Violation("C20|event|payload-not-recovered", "%d handler(s) saw %r, published args=%r kwargs=%r" % (nh, brief(got), brief(args), brief(kwargs)), c)
             elif got:
                 raise Violation("C20|event|delivered-without-key", "layout %s: handler invoked with %r" % (layout, brief(got)), c)
             for name, bad in tampered_variants(pub.payload, c["xor"], n_xors):
@@ -448,7 +452,7 @@ def flows(col, seed, n, xors):
             if in_autobahn(e):
                 raise Violation("C20|exception|" + exc_key(e), repr(e), c)
             raise
-        col.case(True, dig=c, cls=["layout:" + c["layout"], "direction:" + c["direction"], "ser:" + c["ser"]] + (["request-without-arguments"] if c.get("empty") else []) + (["progressive-results"] if c.get("progress") and c["direction"] == "call" else []) + (["prefix-registration"] if c.get("prefix_reg") and c["direction"] != "publish" else []) + (["error-uri-mapped-to-class-at-caller"] if c.get("caller_defines") and c["direction"] == "call-error" else []), sample=dict(c, tampered_variants=stats["tampered"]))
+        col.case(True, dig=c, cls=["layout:" + c["layout"], "direction:" + c["direction"], "ser:" + c["ser"]] + (["request-without-arguments"] if c.get("empty") else []) + (["progressive-results"] if c.get("progress") and c["direction"] == "call" else []) + (["prefix-registration"] if c.get("prefix_reg") and c["direction"] != "publish" else []) + (["several-handlers-on-one-subscription"] if (c.get("handlers") or 1) > 1 and c["direction"] == "publish" else []) + (["error-uri-mapped-to-class-at-caller"] if c.get("caller_defines") and c["direction"] == "call-error" else []), sample=dict(c, tampered_variants=stats["tampered"]))
         col.count("tampered-ciphertexts", stats["tampered"])
     run_hypothesis(col, "flows", strategy(), body, n, seed)
 
